@@ -239,18 +239,94 @@ func ruleC08Parent(c *Ctx) {
 	ok := true
 	why := ""
 	n := 0
+	underParent := func(call ssa.CallInstruction) bool {
+		return fi.HoldsWhere(call.Block(), func(f Fact) bool {
+			ff, _ := loadedField(f.V)
+			return f.Kind == "nonnil" && f.Pol && sameVar(ff, parentFld)
+		})
+	}
+	// the flow that is fired: made by a call on the parent store, initialised from the child's flow (here, or by
+	// the parent's constructor when it is handed the child's flow), then fired — all only when a parent exists
+	var fire, mk ssa.CallInstruction
 	for _, call := range callsIn(fn) {
-		if invokeNamed(call, "initFromChild") || invokeNamed(call, "fireEvents") || invokeNamed(call, "newEntityChangeFlow") {
+		if invokeNamed(call, "fireEvents") {
+			fire = call
 			n++
-			if !fi.HoldsWhere(call.Block(), func(f Fact) bool {
-				ff, _ := loadedField(f.V)
-				return f.Kind == "nonnil" && f.Pol && sameVar(ff, parentFld)
-			}) {
-				ok, why = false, "a parent event is produced although the store has no parent"
+		}
+	}
+	calledInit := func(in ssa.Instruction) bool {
+		ci, isCall := in.(ssa.CallInstruction)
+		if !isCall {
+			return false
+		}
+		cal, _ := calleeOf(ci.Common())
+		return cal != nil && cal.Name() == "initFromChild"
+	}
+	if fire != nil {
+		if !underParent(fire) {
+			ok, why = false, "a parent event is produced although the store has no parent"
+		}
+		if src, isCall := fire.Common().Value.(*ssa.Call); isCall && src.Call.IsInvoke() {
+			if ff, _ := loadedField(src.Call.Value); sameVar(ff, parentFld) {
+				mk = src
+				n++
+				if !underParent(src) {
+					ok, why = false, "a parent event is produced although the store has no parent"
+				}
 			}
 		}
 	}
-	c.Check(ok && n == 3, "C08.PARENT", FnName(fn), p.Pos(fn.Pos()), "the parent flow is created, initialised from the child and fired only when a parent store exists", why+fmt.Sprintf(" (calls found: %d of 3)", n))
+	if mk != nil && len(fn.Params) > 1 {
+		child := ssa.Value(fn.Params[1])
+		inited := false
+		for _, call := range callsIn(fn) {
+			if calledInit(call) && call.Common().IsInvoke() && call.Common().Value == mk.(ssa.Value) && len(call.Common().Args) == 1 && call.Common().Args[0] == child {
+				inited = call.Block().Dominates(fire.Block())
+				if !underParent(call) {
+					ok, why = false, "a parent event is produced although the store has no parent"
+				}
+			}
+		}
+		if !inited {
+			// handed to the constructor: every implementation in the module initialises what it returns from it
+			argNo := -1
+			for i, a := range mk.Common().Args {
+				if a == child {
+					argNo = i
+				}
+			}
+			if argNo >= 0 {
+				impls := 0
+				all := true
+				for _, cand := range c.prodFuncs("boltz") {
+					if cand.Signature.Recv() == nil || cand.Name() != mk.Common().Method.Name() || len(cand.Params) <= argNo+1 {
+						continue
+					}
+					impls++
+					c.Analysed(FnName(cand))
+					handed := cand.Params[argNo+1]
+					good := noPathAvoiding(cand, func(in ssa.Instruction) bool {
+						ci, isCall := in.(ssa.CallInstruction)
+						if !isCall || !calledInit(in) {
+							return false
+						}
+						args := ci.Common().Args
+						return len(args) > 0 && args[len(args)-1] == ssa.Value(handed)
+					}, nil)
+					if !good {
+						all = false
+					}
+				}
+				inited = impls > 0 && all
+			}
+		}
+		if inited {
+			n++
+		} else {
+			why = "the parent's flow is not initialised from the child's flow before it is fired"
+		}
+	}
+	c.Check(ok && n == 3, "C08.PARENT", FnName(fn), p.Pos(fn.Pos()), "the parent flow is created, initialised from the child and fired only when a parent store exists", why+fmt.Sprintf(" (steps found: %d of 3)", n))
 	ifc := p.SSAFunc(p.Method("boltz", "EntityChangeState", "initFromChild"))
 	c.Analysed(FnName(ifc))
 	pe := p.Field("boltz", "EntityChangeState", "ParentEvent")
@@ -1955,9 +2031,76 @@ func ruleC08DeleteFlows(c *Ctx) {
 		}
 		parent[find(a)] = find(b)
 	}
+	// slices kept in a field of a local struct (a value object that carries them from one phase of the delete to
+	// the next): the field is a variable like any other; structs copied whole share their fields' families
+	allocRoot := map[*ssa.Alloc]*ssa.Alloc{}
+	var rootOf func(a *ssa.Alloc) *ssa.Alloc
+	rootOf = func(a *ssa.Alloc) *ssa.Alloc {
+		if allocRoot[a] == nil || allocRoot[a] == a {
+			allocRoot[a] = a
+			return a
+		}
+		r := rootOf(allocRoot[a])
+		allocRoot[a] = r
+		return r
+	}
+	structAlloc := func(v ssa.Value) *ssa.Alloc {
+		if ld, isLd := v.(*ssa.UnOp); isLd && ld.Op == token.MUL {
+			v = ld.X
+		}
+		al, _ := v.(*ssa.Alloc)
+		if al == nil {
+			return nil
+		}
+		if _, isSt := derefType(al.Type()).Underlying().(*types.Struct); !isSt {
+			return nil
+		}
+		return al
+	}
+	for _, b := range del.Blocks {
+		for _, in := range b.Instrs {
+			if st, isSt := in.(*ssa.Store); isSt {
+				if dst := structAlloc(st.Addr); dst != nil && st.Addr == ssa.Value(dst) {
+					for _, leaf := range phiLeaves(st.Val) {
+						if src := structAlloc(leaf); src != nil && leaf != ssa.Value(src) {
+							allocRoot[rootOf(dst)] = rootOf(src)
+						}
+					}
+				}
+			}
+		}
+	}
+	type cellKeyT struct {
+		a *ssa.Alloc
+		f int
+	}
+	cells := map[cellKeyT]ssa.Value{}
+	cellOf := func(base ssa.Value, f int, t types.Type) ssa.Value {
+		al := structAlloc(base)
+		if al == nil {
+			return nil
+		}
+		k := cellKeyT{rootOf(al), f}
+		if cells[k] == nil {
+			cells[k] = &cellVal{t: t}
+		}
+		return cells[k]
+	}
 	for _, b := range del.Blocks {
 		for _, in := range b.Instrs {
 			switch x := in.(type) {
+			case *ssa.UnOp:
+				if fa, isFA := x.X.(*ssa.FieldAddr); isFA && x.Op == token.MUL && isFlowSlice(x.Type()) {
+					union(x, cellOf(fa.X, fa.Field, x.Type()))
+				}
+			case *ssa.Field:
+				if isFlowSlice(x.Type()) {
+					union(x, cellOf(x.X, x.Field, x.Type()))
+				}
+			case *ssa.Store:
+				if fa, isFA := x.Addr.(*ssa.FieldAddr); isFA && isFlowSlice(x.Val.Type()) && !isNilConst(x.Val) {
+					union(x.Val, cellOf(fa.X, fa.Field, x.Val.Type()))
+				}
 			case *ssa.Phi:
 				for _, e := range x.Edges {
 					if !isNilConst(e) {
@@ -2277,3 +2420,13 @@ func ruleC15Inherit(c *Ctx) {
 	c.CallSites(n)
 	c.Floor("C15.INHERIT", 2)
 }
+
+// cellVal stands for a field of a local struct in value families (a place, not an instruction).
+type cellVal struct{ t types.Type }
+
+func (v *cellVal) Name() string                  { return "cell" }
+func (v *cellVal) String() string                { return "cell" }
+func (v *cellVal) Type() types.Type              { return v.t }
+func (v *cellVal) Parent() *ssa.Function         { return nil }
+func (v *cellVal) Referrers() *[]ssa.Instruction { return nil }
+func (v *cellVal) Pos() token.Pos                { return token.NoPos }
